@@ -79,3 +79,29 @@ func VerifC06Truncated(wi, i, q int) {
 	}
 	zv.Reach("c06truncated")
 }
+
+// VerifC06Code39Short: a Code 39 symbol with n free data characters (n = 0: start immediately
+// followed by stop), 10 quiet modules on each side, read by the Code 39 reader with the check-digit
+// and extended-mode flags given: result or error, never a panic.
+func VerifC06Code39Short(n, checkDigit, extended int) {
+	t := make([]byte, n)
+	for i := range t {
+		t[i] = verifAlpha39[zv.IntRange(0, len(verifAlpha39)-1)]
+	}
+	code, err := code39Encoder{}.encode(string(t))
+	zv.Assert(err == nil, "encode")
+	row := gozxing.NewBitArray(len(code) + 20)
+	for k, b := range code {
+		if b {
+			row.Set(10 + k)
+		}
+	}
+	rd := NewCode39ReaderWithFlags(checkDigit != 0, extended != 0).(RowDecoder)
+	res, e := rd.DecodeRow(0, row, nil)
+	zv.Assert((res != nil) != (e != nil), "result xor error")
+	if e != nil {
+		_, isReaderErr := e.(gozxing.ReaderException)
+		zv.Assert(isReaderErr, "reader exceptions only")
+	}
+	zv.Reach("c06code39short")
+}
